@@ -91,6 +91,7 @@ func buildSchemas() {
 	schemas["sim"] = newSchema("sim", simFile.Services().ByName("SimService"))
 	schemas["sim2"] = newSchema("sim2", simFile.Services().ByName("ParamService"))
 	schemas["bare"] = newSchema("bare", simFile.Services().ByName("BareService"))
+	schemas["chain"] = newSchema("chain", buildChainFiles().Services().ByName("ChainService"))
 	installRESTRefs()
 }
 
@@ -304,4 +305,59 @@ func refConnectGetMessage(rawQuery string) ([]byte, string) {
 		return b, ""
 	}
 	return nil, "base64 parameter has value " + q.Get("base64")
+}
+
+// chainFiles holds a schema that exists only at run time and only in a registry of its own: chain/a.proto (the service)
+// imports chain/b.proto, which imports chain/c.proto. The type chain.c.Detail is reachable from the service's file only
+// through an import of an import, and no global registry knows it.
+var chainFiles *protoregistry.Files
+
+type chainResolver struct{ own *protoregistry.Files }
+
+func (r chainResolver) FindFileByPath(p string) (protoreflect.FileDescriptor, error) {
+	if fd, err := r.own.FindFileByPath(p); err == nil {
+		return fd, nil
+	}
+	return protoregistry.GlobalFiles.FindFileByPath(p)
+}
+func (r chainResolver) FindDescriptorByName(n protoreflect.FullName) (protoreflect.Descriptor, error) {
+	if d, err := r.own.FindDescriptorByName(n); err == nil {
+		return d, nil
+	}
+	return protoregistry.GlobalFiles.FindDescriptorByName(n)
+}
+
+func buildChainFiles() protoreflect.FileDescriptor {
+	chainFiles = &protoregistry.Files{}
+	str := func(name string, num int32) *descriptorpb.FieldDescriptorProto {
+		return &descriptorpb.FieldDescriptorProto{Name: proto.String(name), Number: proto.Int32(num), Type: descriptorpb.FieldDescriptorProto_TYPE_STRING.Enum(), Label: descriptorpb.FieldDescriptorProto_LABEL_OPTIONAL.Enum(), JsonName: proto.String(name)}
+	}
+	msg := func(name string, num int32, typ string) *descriptorpb.FieldDescriptorProto {
+		return &descriptorpb.FieldDescriptorProto{Name: proto.String(name), Number: proto.Int32(num), Type: descriptorpb.FieldDescriptorProto_TYPE_MESSAGE.Enum(), TypeName: proto.String(typ), Label: descriptorpb.FieldDescriptorProto_LABEL_OPTIONAL.Enum(), JsonName: proto.String(name)}
+	}
+	files := []*descriptorpb.FileDescriptorProto{
+		{Name: proto.String("chain/c.proto"), Package: proto.String("chain.c"), Syntax: proto.String("proto3"),
+			MessageType: []*descriptorpb.DescriptorProto{{Name: proto.String("Detail"), Field: []*descriptorpb.FieldDescriptorProto{str("s", 1)}}}},
+		{Name: proto.String("chain/b.proto"), Package: proto.String("chain.b"), Syntax: proto.String("proto3"), Dependency: []string{"chain/c.proto"},
+			MessageType: []*descriptorpb.DescriptorProto{{Name: proto.String("Mid"), Field: []*descriptorpb.FieldDescriptorProto{msg("d", 1, ".chain.c.Detail")}}}},
+		{Name: proto.String("chain/a.proto"), Package: proto.String("chain.a"), Syntax: proto.String("proto3"), Dependency: []string{"chain/b.proto", "google/protobuf/any.proto"},
+			MessageType: []*descriptorpb.DescriptorProto{
+				{Name: proto.String("Req"), Field: []*descriptorpb.FieldDescriptorProto{msg("payload", 1, ".google.protobuf.Any"), msg("mid", 2, ".chain.b.Mid")}},
+				{Name: proto.String("Ack"), Field: []*descriptorpb.FieldDescriptorProto{str("s", 1), msg("payload", 2, ".google.protobuf.Any")}},
+			},
+			Service: []*descriptorpb.ServiceDescriptorProto{{Name: proto.String("ChainService"), Method: []*descriptorpb.MethodDescriptorProto{
+				{Name: proto.String("Echo"), InputType: proto.String(".chain.a.Req"), OutputType: proto.String(".chain.a.Ack")}}}}},
+	}
+	var last protoreflect.FileDescriptor
+	for _, fdp := range files {
+		fd, err := protodesc.NewFile(fdp, chainResolver{chainFiles})
+		if err != nil {
+			panic(fmt.Sprintf("%s: %v", fdp.GetName(), err))
+		}
+		if err := chainFiles.RegisterFile(fd); err != nil {
+			panic(err)
+		}
+		last = fd
+	}
+	return last
 }
